@@ -4,8 +4,8 @@ package main
 // allocation clock, ghost world.
 
 import (
-	"go/ast"
 	"fmt"
+	"go/ast"
 	"go/types"
 	"sort"
 	"strings"
@@ -66,7 +66,7 @@ type HeapVer struct {
 }
 
 type State struct {
-	defers []deferRec // deferred closure literals of the functions on the (inlining) stack, oldest first
+	defers   []deferRec // deferred closure literals of the functions on the (inlining) stack, oldest first
 	vars     map[types.Object]Term
 	fields   map[string]*HeapVer
 	ghost    map[string]Term // "W", model arrays "MF_<name>" (as HeapVer would be overkill)
